@@ -9,7 +9,10 @@ request  {"m":"events", "any":"%", "keys":[int…],
           "beh":[[ret, mode, c] | [ret, mode, c, altIn, altRet], …],      -- handler h = index
           "ops":[["r", event, h, kind, langs] | ["n", event, lang, d], …]}
    ret / altRet : null | nat           (the handler returns altRet when the in_data it sees = altIn)
-   mode         : 0 keep out_data | 1 out := in*c+h+1 | 2 out := out*c+h+1 | 3 out := c
+   mode         : 0 keep out_data | 1 out := in*c+h+1 | 2 out := out*c+h+1 | 3 out := c | 4 out := in
+   "canon":[ns, nsing] (optional): data values are tokens for Python objects; a computed token t with
+                  t % ns < nsing denotes a singleton object (None, 0, False, "", ()) and is replaced by
+                  t % ns, so that distinct tokens always denote distinct objects (identity, not equality)
    kind         : "s" (langs is one string) | "t" (a set, as list) | "l" (list / tuple, as list)
 reply    {"outs":[["r", warned] | ["n", flags, in, out, [[h, inSeen, outSeen, ret, outLeft], …]], …],
           "table":[[event, [[langs, h], …]], …]}
@@ -36,11 +39,13 @@ def getBeh (j : Json) : Except String BehSpec := do
   let ret ← getOptNat a[0]!
   let mode ← getNat a[1]!
   let c ← getNat a[2]!
-  if mode > 3 then throw s!"unknown out mode {mode}"
+  if mode > 4 then throw s!"unknown out mode {mode}"
   let alt ← if a.size == 5 then do pure (some (← getNat a[3]!, ← getOptNat a[4]!)) else pure none
   pure { ret, mode, c, alt }
 
-def mkBeh (specs : Array BehSpec) : Beh Nat := fun h i o =>
+def canonTok (ns nsing t : Nat) : Nat := if ns != 0 && t % ns < nsing then t % ns else t
+
+def mkBeh (specs : Array BehSpec) (ns nsing : Nat := 0) : Beh Nat := fun h i o =>
   match specs[h]? with
   | none => (some 0, o)
   | some s =>
@@ -49,9 +54,10 @@ def mkBeh (specs : Array BehSpec) : Beh Nat := fun h i o =>
       | none => s.ret
     let out := match s.mode with
       | 0 => o
-      | 1 => i * s.c + h + 1
-      | 2 => o * s.c + h + 1
-      | _ => s.c
+      | 1 => canonTok ns nsing (i * s.c + h + 1)
+      | 2 => canonTok ns nsing (o * s.c + h + 1)
+      | 3 => canonTok ns nsing s.c
+      | _ => i
     (ret, out)
 
 def getOp (j : Json) : Except String (Op Int String Nat) := do
@@ -120,7 +126,8 @@ def handle (j : Json) : Except String Json := do
   let specs ← listOf getBeh (← field j "beh")
   let ops ← listOf getOp (← field j "ops")
   let variant ← getStr (fieldD j "variant" (Json.str "model"))
-  let beh := mkBeh specs.toArray
+  let cn ← listOf getNat (fieldD j "canon" (Json.arr #[]))
+  let beh := mkBeh specs.toArray (cn.getD 0 0) (cn.getD 1 0)
   let t0 : Table Int String := emptyTable keys
   let (tf, outs) ← match variant with
     | "model" => pure (runOps anyL beh t0 ops)
